@@ -333,6 +333,43 @@ def suite_yaml(ctx):
             if two is not None:
                 compare(areas[0], two[0], "load_area(file, two ids)")
                 compare(areas[-1], two[1], "load_area(file, two ids)")
+            # histories on one file: areas appended, the file rewritten (same ids, other grids), loads in between - every load
+            # returns what the file holds at that moment
+            import pathlib
+            for hno in range(3 if ctx.quick else 20):
+                hpath = os.path.join(tmp, f"history{hno}.yaml")
+                truth, hist = {}, []
+                for step in range(r.randrange(3, 8)):
+                    op = r.choice(["append", "rewrite", "load", "load"]) if truth else "append"
+                    if op in ("append", "rewrite"):
+                        src_a = r.choice(areas)
+                        h2, w2 = r.randrange(1, 40), r.randrange(1, 40)
+                        aid = r.choice(["alpha", "beta", "gamma"])
+                        if op == "append" and aid in truth:
+                            op = "rewrite"
+                        with warnings.catch_warnings():
+                            warnings.simplefilter("ignore")
+                            na = AreaDefinition(aid, f"{aid} version {step}", "", src_a.crs, w2, h2, tuple(float(v) for v in src_a.area_extent))
+                        if op == "rewrite":
+                            truth = {aid: na}
+                            with open(hpath, "w") as fh:
+                                fh.write(na.dump())
+                        else:
+                            truth[aid] = na
+                            na.dump(hpath)
+                        hist.append(f"{op}({aid}: {h2}x{w2})")
+                    else:
+                        aid = r.choice(sorted(truth))
+                        arg = hpath if r.random() < 0.6 else pathlib.Path(hpath)
+                        hist.append(f"load({aid})")
+                        back = loads(lambda: load_area(arg, aid), "load_area(file history)", truth[aid])
+                        ctx.count("yaml.history.loads")
+                        if back is not None and (back.shape != truth[aid].shape or back.description != truth[aid].description):
+                            ctx.fail("area_config.load_area", f"after the file history {hist} the load returns '{back.description}' with shape {back.shape}, but the file holds "
+                                     f"'{truth[aid].description}' with shape {truth[aid].shape}", {"history": hist}, tags={"via": "file-history", "cause": "stale-file-content"}, size=len(hist))
+                            break
+                        if back is not None:
+                            compare(truth[aid], back, f"load_area(file history {hno}.{step})")
         finally:
             import shutil
             shutil.rmtree(tmp, ignore_errors=True)
